@@ -196,7 +196,9 @@ def render_markup(_case):
     from tatsu.ztyle import Color
     bad = []
     for tagged, plain in [('[bold]ab[/] cd', 'ab cd'), ('[red]x[/red][green]y[/green]', 'xy'), ('[bold red]p q[/][/] r', 'p q r'),
-                          ('[underline]你好[/] é', '你好 é'), ('plain', 'plain'), ('[bold][italic]n[/]m[/]', 'nm')]:
+                          ('[underline]你好[/] é', '你好 é'), ('plain', 'plain'), ('[bold][italic]n[/]m[/]', 'nm'),
+                          # text with an opening bracket that starts no tag, and the escaped bracket: the characters of the text stay
+                          ('a [ b', 'a [ b'), ('[bold]x[/] [y', 'x [y'), ('x[bold', 'x[bold'), ('a [[ b', 'a [ b'), ('[', '['), ('[bold]k[/][', 'k[')]:
         try:
             on1 = str(Color.always().markup(tagged))
             off = str(Color.never().markup(tagged))
@@ -209,7 +211,7 @@ def render_markup(_case):
                         'expected': plain, 'observed': off})
         if descape(on1) != plain or on1 != on2:
             bad.append({'what': 'descape(coloured markup) != plain text', 'text': tagged, 'expected': plain, 'observed': [on1, on2]})
-        if tagged != plain and '\x1b' not in on1:
+        if '[/' in tagged and '\x1b' not in on1:          # (only text that closes a tag must come out styled)
             bad.append({'what': 'coloured markup has no escapes', 'text': tagged, 'observed': on1})
     return bad
 
